@@ -1117,18 +1117,46 @@ def run_shannon(case):
     return F.result()
 
 
-def mcx_cases():
+MCX_MAX_N_QUICK = 11
+
+
+def mcx_cases(tier):
+    """controls 0..7 x free qubits 0..4 x 2 layouts: every branch of the size-dependent case split of
+    decompose_multi_controlled_x on both sides of its thresholds (trivial m<=2; Lemma 7.2 iff free >= m-2, with a
+    ladder of m-3 rungs; Lemma 7.3 recursion iff 1 <= free < m-2; general rotation iff free == 0 and m >= 3)."""
     cs = []
-    for m in range(0, 5):
-        for f in range(0, 3):
+    for m in range(0, 8):
+        for f in range(0, 5):
+            if tier == "quick" and m + 1 + f > MCX_MAX_N_QUICK:
+                continue
             for layout in (0, 1):
                 cs.append((m, f, layout))
+    cs.sort(key=lambda c: (c[0] + c[1], c))
     return cs
 
 
 def _layout(n, layout):
     qs = cirq.LineQubit.range(n)
     return qs if layout == 0 else qs[::-1]
+
+
+def _controlled_gate_list(F, ops, idx, kind):
+    """Operations -> (controls, target, 2x2) triples for the basis-state propagator; None if the documented gate set
+    (1-qubit gates, CNOT, CCNOT) is violated."""
+    badops = [o for o in ops if not (nq(o) == 1 or o.gate == cirq.CNOT or o.gate == cirq.CCNOT)]
+    F.need(not badops, kind + "_types", lambda: f"operations other than 1-qubit/CNOT/CCNOT: {[str(o) for o in badops[:5]]}")
+    foreign = [o for o in ops if any(q not in idx for q in o.qubits)]
+    F.need(not foreign, kind + "_qubits", lambda: f"foreign qubits used: {[str(o) for o in foreign[:5]]}")
+    if badops or foreign:
+        return None
+    out = []
+    for o in ops:
+        w = [idx[q] for q in o.qubits]
+        if len(w) == 1:
+            out.append(((), w[0], cirq.unitary(o)))
+        else:
+            out.append((tuple(w[:-1]), w[-1], L.X))
+    return out
 
 
 def run_mcx(case):
@@ -1142,17 +1170,26 @@ def run_mcx(case):
     if ok:
         ops = flat_ops(ops)
         idx = {q: i for i, q in enumerate(allq)}
-        want = E.embed(G.controlled(L.X, (2,) * m, [(1,) * m]), [idx[q] for q in controls + [target]], (2,) * n)
-        F.close("mcx", L.phase_err(want, ops_unitary(ops, allq)), TOL, "mcx_unitary", "operations do not implement C^m X (x) identity on the free qubits")
-        badops = [o for o in ops if not (nq(o) == 1 or o.gate == cirq.CNOT or o.gate == cirq.CCNOT)]
-        F.need(not badops, "mcx_types", lambda: f"operations other than 1-qubit/CNOT/CCNOT: {[str(o) for o in badops[:5]]}")
-        F.need(set(q for o in ops for q in o.qubits) <= set(allq), "mcx_qubits", "foreign qubits used")
+        gl = _controlled_gate_list(F, ops, idx, "mcx")
+        if gl is not None:
+            # every one of the 2^n basis states is propagated through the operations and then through the inverse of
+            # C^m X (x) identity; the result must be a global phase times the input
+            d = L.propagate_defect(n, gl, [(tuple(idx[q] for q in controls), idx[target], L.X)])
+            F.close("mcx", d, TOL, "mcx_unitary", f"operations do not implement C^{m} X (x) identity on the {f} free qubits (all {2 ** n} basis states propagated)")
+            F.count("basis_states_propagated", 2 ** n)
     return F.result()
 
 
-def mcrot_cases():
+def mcrot_cases(tier):
     n = len(L.s1_small(gen()))
-    return [(m, i, su, layout) for m in range(0, 5) for i in range(n) for su in (0, 1) for layout in ((0, 1) if i % 5 == 0 else (0,))]
+    cs = [(m, i, su, layout) for m in range(0, 8) for i in range(n) for su in (0, 1) for layout in ((0, 1) if i % 5 == 0 else (0,))]
+    big = (24, 7, 37, 39)  # indices into s1_small: generic ZYZ, a Clifford, exp(i 1e-5 H), Ry(pi-1e-7)
+    cs += [(8, i, su, 0) for i in big for su in (0, 1)]
+    cs += [(9, i, 1, k % 2) for k, i in enumerate(big)]
+    if tier != "quick":
+        cs += [(9, i, 0, k % 2) for k, i in enumerate(big)]
+        cs += [(10, i, 1, 0) for i in big[:2]]
+    return cs
 
 
 def run_mcrot(case):
@@ -1165,15 +1202,15 @@ def run_mcrot(case):
     allq = cirq.LineQubit.range(n)
     perm = _layout(n, layout)
     controls, target = list(perm[:m]), perm[m]
-    F = Fails(f"decompose_multi_controlled_rotation(S1{d}{' normalised to SU(2)' if su else ''}, controls={controls}, target={target})")
+    F = Fails(f"decompose_multi_controlled_rotation(S1{d}{' normalised to SU(2)' if su else ''}, {m} controls={controls}, target={target})")
     ok, ops = guarded(F, "mcrot", cirq.decompose_multi_controlled_rotation, mat, controls, target)
     if ok:
         ops = flat_ops(ops)
         idx = {q: k for k, q in enumerate(allq)}
-        want = E.embed(G.controlled(mat, (2,) * m, [(1,) * m]), [idx[q] for q in controls + [target]], (2,) * n)
-        F.close("mcrot", L.phase_err(want, ops_unitary(ops, allq)), TOL, "mcrot_unitary", "operations do not implement the multi-controlled rotation")
-        badops = [o for o in ops if not (nq(o) == 1 or o.gate == cirq.CNOT or o.gate == cirq.CCNOT)]
-        F.need(not badops, "mcrot_types", lambda: f"operations other than 1-qubit/CNOT/CCNOT: {[str(o) for o in badops[:5]]}")
+        gl = _controlled_gate_list(F, ops, idx, "mcrot")
+        if gl is not None:
+            dfc = L.propagate_defect(n, gl, [(tuple(idx[q] for q in controls), idx[target], L.dag(mat))])
+            F.close("mcrot", dfc, TOL, "mcrot_unitary", f"operations do not implement the {m}-controlled rotation (all {2 ** n} basis states propagated)")
     return F.result()
 
 
@@ -1493,8 +1530,8 @@ def stages(tier, seed):
         CaseStage("cphase_into_two_fsim", [(i, j, k) for i in range(len(ts)) for j in range(len(ths)) for k in range(len(phs))], run_cphase_fsim, reset=reset),
         CaseStage("s3_three_qubit", [(i, p) for i in range(len(s3())) for p in range(6)], run_three_qubit, reset=reset),
         CaseStage("quantum_shannon", [(i, l) for i, (n, _, _) in enumerate(_S["shannon"]) for l in range(len(shannon_layouts(n)))], run_shannon, reset=reset),
-        CaseStage("multi_controlled_x", mcx_cases(), run_mcx, reset=reset),
-        CaseStage("multi_controlled_rotation", mcrot_cases(), run_mcrot, reset=reset),
+        CaseStage("multi_controlled_x", mcx_cases(tier), run_mcx, reset=reset),
+        CaseStage("multi_controlled_rotation", mcrot_cases(tier), run_mcrot, reset=reset),
         CaseStage("two_qubit_state_preparation", [(i, l) for i in range(len(_S["prep"])) for l in (0, 1)], run_state_prep, reset=reset),
         CaseStage("clifford_tableau_synthesis", [(i, l) for i, c in enumerate(_S["cliff"]) for l in ((0, 1) if c[0] == 2 else (0,))], run_clifford, reset=reset),
         CaseStage("gate_tabulation", tab_cases, run_tabulation, reset=reset),
